@@ -140,8 +140,11 @@ class AbstractAst:
             parser._listeners = [self.parserErrorListenerType()]
             if not isinstance(parser._listeners[0], ErrorListener):
                 raise RTAMTException('{} is not ANTRL4 ErrorListener'.format(parser._listeners[0].__class__.__name__))
-        ctx = parser.specification_file()
-        self.visit(ctx.specification())
+        try:
+            ctx = parser.specification_file()
+            self.visit(ctx.specification())
+        except RecursionError:
+            raise RTAMTException('The specification is nested too deeply to be parsed.')
         return
 
     @property
